@@ -7,6 +7,8 @@ SEED_DIR = os.environ.get("SEED_DIR", "/tmp/seed")
 RENAME = ({"A": "C", "B": "D", "C": "E"} if SEED_DIR.endswith("seed2") else {"A": "E", "B": "F", "C": "G"} if SEED_DIR.endswith(("seed3", "seed4")) else {})
 # round 3: letters continue after those the property already has
 RENAME3 = {"C14": {"A": "C", "B": "D"}, "C17": {"A": "C", "B": "D"}, "C18": {"A": "C", "B": "D"}, "C20": {"A": "D", "B": "E"}}
+RENAME5 = {"C07": {"A": "G", "B": "H"}, "C09": {"A": "G", "B": "H"}, "C13": {"A": "G", "B": "H"}, "C14": {"A": "E", "B": "F"}, "C17": {"A": "E", "B": "F"},
+           "C18": {"A": "E", "B": "F"}, "C20": {"A": "F", "B": "G"}}
 # the checks are run from a SNAPSHOT of the committed /verif (tracked files + build output), so that /verif can be edited meanwhile
 SNAP = os.environ.get("VERIF_SNAP")
 if SNAP:
@@ -22,7 +24,7 @@ results = []
 for patch in sorted(glob.glob(SEED_DIR + "/C*-out/patch_*.diff")):
     prop = re.search(r"/(C\d\d)-out/", patch).group(1)
     X = re.search(r"patch_(\w)\.diff", patch).group(1)
-    sid = f"{prop}-{(RENAME3.get(prop, RENAME) if SEED_DIR.endswith('seed3') else RENAME).get(X, X)}"
+    sid = f"{prop}-{(RENAME5[prop] if SEED_DIR.endswith('seed5') else RENAME3.get(prop, RENAME) if SEED_DIR.endswith('seed3') else RENAME).get(X, X)}"
     if only and prop not in only and sid not in only:
         continue
     demo = patch.replace("patch_", "demo_").replace(".diff", ".py")
